@@ -8,8 +8,7 @@ from vlib import coq_hex, coq_bool, coq_value, jb, js, ji, jf_bits, jo, ja
 ID = "C26"
 THEOREMS = [
     "C26_varint", "C26_varint_len", "C26_zigzag", "C26_fixed", "C26_tag", "C26_len_delim", "C26_records",
-    "C26_scalar_wire", "C26_packed",
-    "C26_convert_shaped_partial", "C26_strip_idempotent_example", "C26_message_partial", "C26_nonvacuous",
+    "C26_scalar_wire", "C26_packed", "C26_wire_message", "C26_parse_canon",
 ]
 IMPORTS_HEAD = ("From Coq Require Import String.\nFrom Coq Require Import List NArith ZArith.\n"
                 "From VRL Require Import Base.Bytes Base.Value Base.Lit Model.Proto Model.ProtoGlue Corr.C26.\n"
@@ -317,8 +316,9 @@ def targets():
     return res
 
 
-def rt_case(pi, mi, p, m, v, lossy=None):
-    c = {"op": "rt", "file": p["file"], "type": m["name"], "v": v, "pool": pi, "ty": mi, "unordered": multi_map(p, m, v)}
+def rt_case(pi, mi, p, m, v, lossy=None, shaped=False):
+    c = {"op": "rt", "file": p["file"], "type": m["name"], "v": v, "pool": pi, "ty": mi, "unordered": multi_map(p, m, v),
+         "shaped": shaped}
     if lossy is not None:
         c["lossy"] = lossy
     return c
@@ -331,10 +331,10 @@ def gen_cases(run, n):
     per = max(4, n * 6 // (10 * len(ts)))
     enc_inputs = []
     for pi, mi, p, m in ts:                       # message-shaped values for every message type
-        cases.append(rt_case(pi, mi, p, m, jo({})))
+        cases.append(rt_case(pi, mi, p, m, jo({}), shaped=True))
         for _ in range(per):
             v = shaped_msg(rng, p, m)
-            cases.append(rt_case(pi, mi, p, m, v))
+            cases.append(rt_case(pi, mi, p, m, v, shaped=True))
             enc_inputs.append((pi, mi, p, m, v))
     for _ in range(n * 25 // 100):                # values that are not message-shaped
         pi, mi, p, m = rng.choice(ts)
@@ -375,9 +375,9 @@ def coq_vres(r):
 def to_coq(c, o):
     if c["op"] == "rt":
         lossy = c.get("lossy")
-        return "CRt pool_%d %d %s %s %s %s %s" % (c["pool"], c["ty"], coq_bool(True if lossy is None else lossy),
-                                                 coq_bool(c.get("unordered", False)), coq_value(c["v"]),
-                                                 coq_ires(o["enc"]), coq_vres(o["dec"]))
+        return "CRt pool_%d %d %s %s %s %s %s %s" % (c["pool"], c["ty"], coq_bool(True if lossy is None else lossy),
+                                                    coq_bool(c.get("unordered", False)), coq_bool(c.get("shaped", False)),
+                                                    coq_value(c["v"]), coq_ires(o["enc"]), coq_vres(o["dec"]))
     if c["op"] == "dec":
         return "CDec pool_%d %d %s %s" % (c["pool"], c["ty"], coq_hex(c["b"]), coq_vres(o["dec"]))
     raise ValueError(c["op"])
